@@ -10,11 +10,12 @@ pub mod verif_dag
     use std::clone::Clone;
     use std::cmp::{PartialEq, PartialOrd, Ord};
 
+    /*  (pushed as a byte: String::push(char) on a symbolic char drags in the UTF-8 encoder) */
     fn one(c : u8) -> String
     {
-        let mut s = String::with_capacity(1);
-        s.push(c as char);
-        s
+        let mut v : Vec<u8> = Vec::with_capacity(1);
+        v.push(c);
+        unsafe { String::from_utf8_unchecked(v) }
     }
 
     fn mk_rule(r : &RuleD) -> Rule
@@ -222,6 +223,19 @@ pub mod verif_dag
         let r = run(&c);
         check(&c, r);
     }
+
+    fn sort_case_ft(two : bool, n : usize, ns : usize)
+    {
+        let mut raw = Raw { bytes : kani::any(), pos : 0 };
+        let c = sortcase::decode_ex(&mut raw, two, Some(n), Some(ns), true);
+        let r = run(&c);
+        check(&c, r);
+    }
+
+    /*  rules a, b, c given in sorted order (what rules_to_frame_buffer establishes), edges symbolic */
+    sort_harness!(sort_dag_3_s2_ft, 7, { sort_case_ft(false, 3, 2); });
+    sort_harness!(sort_dag_3_s1_ft, 7, { sort_case_ft(false, 3, 1); });
+    sort_harness!(sort_dag_3_s2_ft_two_targets, 7, { sort_case_ft(true, 3, 2); });
 
     /*  every rule has exactly two (distinct) sources: any dependency shape with at most two
         sources per rule is represented, leaf names p, q serving as padding */
